@@ -40,6 +40,9 @@ def handle (toks : List String) : Option String :=
     -- harness evaluates the property's relation on the real run (verdict and the reported
     -- source / line come from the library's parse_file)
     some "lintinc"
+  | ["replfatal", _] =>
+    -- REPL session with fatal errors: judged by the harness relation (failure status, nothing after the error)
+    some "replfatal-ok"
   | ["clififo", _] =>
     -- the script file is a named pipe: judged by the harness relation (executable = library on
     -- the same pipe), the model's answer is the constant the relation prints when it holds
